@@ -98,9 +98,9 @@ class Refine(Harness):
     functions = [HR + "refine_hmmscan_results", HR + "gather_by_query", HR + "_remove_overlapping",
                  HR + "_merge_domain_list", HR + "_merge_immediate_neigbours", HR + "remove_incomplete",
                  HR + "HMMResult.merge", HR + "HMMResult.__eq__"]
-    bound = ("k <= 3 (quick) / 4 (thorough) hits on one protein over 2 profiles (lengths 15 and 35), every profile assignment, "
+    bound = ("k <= 3 hits on one protein over 2 profiles (lengths 15 and 35), every profile assignment (quick: up to renaming), "
              "symbolic start/end (ints) and score/e-value (reals), both modes, every input order (all k! insertion orders of the hit set)")
-    outside = "k > 4; more than 2 profiles; other profile lengths; 'regulator' fallback of remove_incomplete"
+    outside = "k > 3; more than 2 profiles; other profile lengths; 'regulator' fallback of remove_incomplete"
     stubs = ["set iteration order modelled as insertion order, every insertion permutation supplied (hbase.OSet)",
              "doubles that are the nearest double of a simple fraction are read as that fraction (0.2*L, 1.5*L, 1/3): DESIGN 1.4"]
     task_paths = 150
@@ -122,13 +122,11 @@ class Refine(Harness):
 
     def variants(self, tier):
         out = []
-        kmax = 3 if tier == "quick" else 4
-        for k in range(1, kmax + 1):
+        # (k = 4: a single variant - 24 input orders of four symbolic hits - does not finish within 10 minutes on 16 cores)
+        for k in range(1, 4):
             for profs in itertools.product("ab", repeat=k):
                 if profs != tuple(sorted(profs)) and tier == "quick" and k == 3:
                     continue   # quick: assignments up to renaming of hits
-                if tier == "thorough" and k == 4 and profs not in (("a", "a", "a", "a"), ("a", "a", "b", "b"), ("a", "b", "a", "b"), ("a", "a", "a", "b")):
-                    continue
                 for mode in (False, True):
                     out.append({"profiles": list(profs), "neighbour_mode": mode})
         return out
